@@ -287,3 +287,7 @@ mod tests {
         );
     }
 }
+
+#[cfg(kani)]
+#[path = "/verif/kani/parquet/util/push_buffers.rs"]
+mod verif_kani;
